@@ -145,6 +145,14 @@ func c01FuncAtoms() []*ref.Expr {
 		ref.Bin(">", ref.Bin("*", ref.Bin("+", iv(), ref.N(1)), ref.N(2)), ref.Bin("+", ref.N(2), ref.N(3))),
 		ref.Bin("=", ref.Bin("+", ref.Bin("+", fv(), ref.Fl(0.5)), ref.Fl(1.5)), ref.N(3)),
 		ref.Bin("<", ref.Bin("-", ref.N(10), ref.Bin("-", ref.N(3), iv())), ref.N(9)),
+		// substr at the edges of the text: a start on the last byte, an end at / beyond the length
+		ref.Bin("!=", ref.Call("substr", ref.Key(), ref.N(0), ref.N(1)), ref.S("")),
+		ref.Bin("!=", ref.Call("substr", ref.Key(), ref.N(1), ref.N(2)), ref.S("")),
+		ref.Bin("!=", ref.Call("substr", ref.Key(), ref.N(1), ref.N(3)), ref.S("")),
+		ref.Bin("!=", ref.Call("substr", ref.Key(), ref.N(2), ref.N(3)), ref.S("")),
+		ref.Bin("=", ref.Call("substr", ref.Key(), ref.N(2), ref.N(9)), ref.S("b")),
+		ref.Bin("=", ref.Call("substr", ref.Value(), ref.N(1), ref.N(2)), ref.S("0")),
+		ref.Bin("=", ref.Call("substr", ref.Value(), ref.N(0), ref.N(1)), ref.S("1")),
 		ref.Bl(true),
 		ref.Bl(false),
 	}
